@@ -380,6 +380,10 @@ func (w *World) CloseAllAndCheckRefs(snapsFirst bool) {
 	if !snapsFirst {
 		closeSnaps()
 	}
+	Quiesce() // let closed iterators' producers unwind and release their pins
+	if !Instrumented {
+		return // real goroutines: no quiescence guarantee, the count is decided on the instrumented build
+	}
 	for _, m := range w.RC.Neg {
 		w.Fail("refcount", "negative-count", "%s", m)
 	}
